@@ -596,3 +596,60 @@ Definition model_rootworld (rw : rootworld) : rootworld :=
                                       end
                           end) (rw_dels rw)
         end).
+
+(* ------------------------------------------------------------------------------------------ ACL records landing DURING a call *)
+(* AddRawChanges runs under the TREE lock only; the ACL list is shared with the ACL sync handler, which adds records
+   under the list's WRITE lock.  The code takes the list's READ lock around everything that looks at the ACL
+   (objectTree.validateTree), so a record can land before the validation or after it, never in between: the call is
+   atomic with respect to the ACL log, its outcome is that of one of the two serial orders.
+   A race scenario is a scenario in which a concurrent ACL writer holds pending records during some calls; the harness
+   lets the writer take every lock-free point the call offers (TryLock on the list's own RWMutex at every access the
+   tree makes to the list) and reports how many records got in while the call was running. *)
+Record racescen := mkRace {
+  rs_sc : scenario;        (* d_acl_len of every delivery = number of ACL records held when the call was ENTERED *)
+  rs_mid : list nat        (* per delivery: records the concurrent writer added WHILE the call was running (0: it had to
+                              wait for the call to return, or there was no writer) *)
+}.
+
+Definition set_len (d : delivery) (n : nat) : delivery :=
+  mkDel n (d_batch d) (d_ok d) (d_eclass d) (d_added d) (d_heads d) (d_iter d) (d_stored d) (d_has d).
+
+Definition with_dels (sc : scenario) (ds : list delivery) : scenario :=
+  mkScen (sc_me sc) (sc_owner sc) (sc_aclroot sc) (sc_recs sc) (sc_hists sc) (sc_root sc) (sc_derived sc)
+         (sc_root_len sc) (sc_built sc) (sc_heads0 sc) (sc_iter0 sc) (sc_stored0 sc) ds.
+
+(* the deliveries labelled with the number of records the receiver holds when the call RETURNS *)
+Fixpoint at_return (ds : list delivery) (mid : list nat) : list delivery :=
+  match ds with
+  | [] => []
+  | d :: r => set_len d (d_acl_len d + hd O mid) :: at_return r (tl mid)
+  end.
+
+(* the property over OBSERVED behaviour: whatever the interleaving was, every change that became part of the tree is
+   authentic and was authorised (in the TRUTH) at a record the receiver holds when the call returns, parents likewise;
+   a rejected call is a no-op.  (That the outcome is exactly that of one of the two serial orders is the model
+   comparison, Run/C02_run.v.) *)
+Definition spec_race (rs : racescen) : bool :=
+  spec_C02 (with_dels (rs_sc rs) (at_return (sc_dels (rs_sc rs)) (rs_mid rs))).
+
+(* the model: per call a serial order -- false: the pending records land after the call, true: before it *)
+Fixpoint race_ins (ds : list delivery) (mid : list nat) (ch : list bool) : list (nat * list rawchange) :=
+  match ds with
+  | [] => []
+  | d :: r => ((if hd false ch then d_acl_len d + hd O mid else d_acl_len d)%nat, d_batch d)
+              :: race_ins r (tl mid) (tl ch)
+  end.
+
+Definition blank_del (nb : nat * list rawchange) : delivery := mkDel (fst nb) (snd nb) false 0 [] [] [] [] [].
+
+(* the model's deliveries labelled with the entry lengths again *)
+Fixpoint enter_lens (ms ds : list delivery) : list delivery :=
+  match ms, ds with
+  | m :: mr, d :: dr => set_len m (d_acl_len d) :: enter_lens mr dr
+  | _, _ => []
+  end.
+
+Definition model_race (ch : list bool) (rs : racescen) : racescen :=
+  let sc := rs_sc rs in
+  let m := model_scenario (with_dels sc (map blank_del (race_ins (sc_dels sc) (rs_mid rs) ch))) in
+  mkRace (with_dels m (enter_lens (sc_dels m) (sc_dels sc))) (rs_mid rs).
